@@ -217,7 +217,7 @@ def contract(cls):
              requires=req, returns=state, ensures=ens,
              raises={"BTreesConflictError": {}},
              modifies=[],
-             ghost={"allocates": True, "no_compare": True, "split_cases": 1, "single_exit": True,
+             ghost={"allocates": True, "no_compare": True, "split_cases": 1, "single_exit": True, "heavy": True,
                     # quick tier: all three states with a successor link (and, for sets, all without)
                     "quick_cases": [26] if mapping else [26, 13],
                     "uses": {"*:cursor_*": CURSOR_FACTS, "call:_SetIteration.advance:requires:*": CURSOR_FACTS,
